@@ -212,6 +212,9 @@ def post_fq(c, stats):
     if (fr_, fc_, qr_, qc_) != (n, n, n, n):
         c.probs.append(("prop", "wna-shape", "Dim %d: F is %dx%d, Q is %dx%d, expected %dx%d" % (d, fr_, fc_, qr_, qc_, n, n)))
         return
+    if not (finite(F) and finite(Q)):
+        c.probs.append(("prop", "wna-Q", "Dim %d T=%r q=%r: F or Q has non-finite entries" % (d, T, q)))
+        return
     if sd != (n, 0, 0) or total != n:
         c.probs.append(("prop", "wna-state-description", "Dim %d: state description %s total %d, expected (%d,0,0)" % (d, sd, total, n)))
     if idd != (n, 0, n):
@@ -328,6 +331,9 @@ def post_samp(c, stats):
     if (pr, pc) != (n, n):
         c.probs.append(("prop", key_dim, "%s: getNoiseSample(%d) returned %dx%d" % (what, n, pr, pc)))
         return
+    if not finite(Y0):
+        c.probs.append(("prop", "sqrt-contract", "%s: samples are not finite (no real square root S with S S^T = covariance)" % what))
+        return
     S, cond = recover_factor(Y0, Z0)
     if S is None:
         c.notes.append("probe draws singular")
@@ -435,6 +441,10 @@ def post_motion(c, stats):
     rd.expect("P")
     _, _, Y0 = rd.shaped()
     _, _, Z0 = rd.shaped()
+    if not (finite(Y0) and finite(M)):
+        if promised:
+            c.probs.append(("prop", "wna-motion", "%s: non-finite result" % what))
+        return
     S, cond = recover_factor(Y0, Z0)
     if S is None:
         return
@@ -577,12 +587,12 @@ def post_trans(c, stats):
     for j in range(N):
         quad, ld = spec[j]
         tol = 1e-12 * condQ * (1.0 + float(quad)) + 1e-11 * (1 + abs(ld))
-        if p[j] > 0:
+        if p[j] > 0 and math.isfinite(p[j]):
             err = abs(math.log(p[j]) - ld)
         else:
-            err = 0.0 if ld < -700 else float("inf")
-        worst = max(worst, err / tol)
-        if err > tol:
+            err = 0.0 if (p[j] == 0 and ld < -700) else float("inf")
+        worst = max(worst, err / tol) if err == err else float("inf")
+        if not (err <= tol):
             c.probs.append(("prop", "wna-transition", "%s: pair %d has density %.17g, N(cur; F prev, Q) = %.17g (log diff %.3g, tol %.3g)"
                             % (what, j, p[j], math.exp(ld) if ld > -700 else 0.0, err, tol)))
             break
@@ -929,6 +939,8 @@ def post_sim(c, stats):
     xs = traj_exact(tr, S, Z)
     exp = sim_oracle(xs, ops)
     hist = stats.setdefault("sim_branch", {})
+    kctor = "ctor L=0 (nothing stored)" if tr["L"] == 0 else "ctor L>0"
+    hist[kctor] = hist.get(kctor, 0) + 1
     for k, (op, e, o) in enumerate(zip(ops, exp, got)):
         name = {"b": "buffer-true" if e[1] else "buffer-exhausted", "g": "get-empty" if e[1] is None else "get", "r": "reset", "u": "other-property"}[op]
         hist[name] = hist.get(name, 0) + 1
@@ -1037,6 +1049,9 @@ def post_sensor(c, stats):
     if idd != (lin, circ, mm):
         c.probs.append(("prop", "sensor-description", "%s: input description %s, expected %s" % (what, idd, (lin, circ, mm))))
     wantmd = (sum(1 for i in idx if i < lin), sum(1 for i in idx if i >= lin), 0)
+    hd = stats.setdefault("sensor_branch", {})
+    hd["row selects linear component"] = hd.get("row selects linear component", 0) + wantmd[0]
+    hd["row selects circular component"] = hd.get("row selects circular component", 0) + wantmd[1]
     if mdd != wantmd:
         c.probs.append(("prop", "sensor-description", "%s: measurement description %s, expected %s" % (what, mdd, wantmd)))
     got = []
@@ -1110,9 +1125,16 @@ def post_sensor(c, stats):
                 break
         elif op == "r":
             cur = 0
+            if o != ("flag", True):
+                c.probs.append(("prop", "sim-reset", "%s: call %d: reset reported false" % (what, k)))
+                break
         elif op == "b":
-            if cur < len(xs):
+            exp = cur < len(xs)
+            if exp:
                 cur += 1
+            if o != ("flag", exp):
+                c.probs.append(("prop", "sim-exhausted" if not exp else "sim-served", "%s: call %d: bufferData returned %s" % (what, k, o[1])))
+                break
     c.st = {"got": got, "xs": xs, "cond": cond, "condR": condR, "SR": SR}
     toks = ["sensor"] + traj_dtoks(tr, S, Z) + [str(mm)] + [str(i) for i in idx] + cm(round_mat(SR)) + [str(len(D))] + hx(D) + [str(len(ops))] + list(ops)
     c.dline = " ".join(toks)
@@ -1312,24 +1334,39 @@ def corpus_cases():
     return out
 
 
+def replay_case(path):
+    """re-run the input recorded in a replay file"""
+    import json
+    rep = json.load(open(path))["replay"]
+    meta = rep.get("meta") or {}
+    for k in ("br", "s", "area"):
+        if k in meta:
+            meta[k] = tuple(meta[k])
+    line = rep["input_line"]
+    return Case(line.split()[0], line, meta)
+
+
 def run(ctx):
     ctx.proof_stage()
     binary = vlib.build_harness("h_models")
     stats = {}
-    cases = corpus_cases()
     per_section = {}
-    for name, gen, post, cmp_, ops in SECTIONS:
-        cs = gen(ctx, ctx.gen(name))
-        per_section[name] = len(cs)
-        cases += cs
+    if ctx.replay:
+        cases = [replay_case(ctx.replay)]
+    else:
+        cases = corpus_cases()
+        for name, gen, post, cmp_, ops in SECTIONS:
+            cs = gen(ctx, ctx.gen(name))
+            per_section[name] = len(cs)
+            cases += cs
     # stage 2a: the implementation
     hout, logs = vlib.run_harness(binary, [c.line for c in cases])
     for c, h in zip(cases, hout):
         c.hout = h
         try:
             BY_OP[c.op][2](c, stats)
-        except (ValueError, IndexError) as e:
-            c.probs.append(("prop", "harness-output-malformed", "%s: unreadable implementation output (%s): %s" % (c.op, e, h[:80])))
+        except (ValueError, IndexError, OverflowError) as e:
+            c.probs.append(("prop", "impl-output-not-finite", "%s: the implementation's output is not finite / not of the promised form (%s): %s" % (c.op, e, h[:80])))
     # stage 2b: the model, on the same inputs plus the draws / square-root factor the implementation used
     todo = [c for c in cases if c.dline]
     shape_lines = sorted({ln for c in cases for ln in c.st.get("shape_lines", [])}) if cases else []
@@ -1356,13 +1393,13 @@ def run(ctx):
         if key in seen:
             continue
         seen.add(key)
-        ctx.violation(key, what, {"harness": "h_models", "input_line": c.line, "observed": (c.hout or "")[:3000],
+        ctx.violation(key, what, {"harness": "h_models", "input_line": c.line, "meta": c.meta, "observed": (c.hout or "")[:3000],
                                   "crash_log": logs.get(cases.index(c), "")[-1500:] if (c.hout or "").startswith("crash") else ""})
     if (corr_bad or shape_bad) and not prop_bad:
         if corr_bad:
             c, key, what = corr_bad[0]
             ctx.violation("correspondence:" + key, "model and implementation disagree (%d cases), no property predicate failed: %s" % (len(corr_bad), what),
-                          {"harness": "h_models", "correspondence": c.op, "input_line": c.line, "driver_line": (c.dline or "")[:3000],
+                          {"harness": "h_models", "correspondence": c.op, "input_line": c.line, "meta": c.meta, "driver_line": (c.dline or "")[:3000],
                            "observed": (c.hout or "")[:2000], "model": (c.dout or "")[:2000]}, no_input=True)
         else:
             ctx.violation("correspondence:sample-shape", "the model's sample-shape function disagrees: %s" % (shape_bad[0],), {"lines": shape_bad[:5]}, no_input=True)
@@ -1384,10 +1421,11 @@ def run(ctx):
         for nt in c.notes:
             k = nt.split(" for ")[0][:90]
             notes[k] = notes.get(k, 0) + 1
-    distinct = len({c.line for c in cases})
-    trivial = sum(1 for c in cases if c.op in ("lti_state", "lti_meas") or (c.op == "linmodel" and len(c.meta["idx"]) == 0))
+    def trivial(c):
+        return c.op in ("lti_state", "lti_meas") or (c.op == "linmodel" and len(c.meta["idx"]) == 0)
+    distinct_nontrivial = len({c.line for c in cases if not trivial(c)})
     ctx.coverage.update({
-        "evaluations": len(cases), "distinct_nontrivial": max(0, min(distinct, len(cases) - trivial)),
+        "evaluations": len(cases), "distinct_nontrivial": distinct_nontrivial,
         "rule": "one case = one call sequence on one object of the shipped models (constructed from generated parameters); distinct = distinct input lines; "
                 "trivial = pure shape queries of the two LTI constructors and empty index lists; "
                 "sections: F/Q over Dim x (T,q) adversarial+random; noise samples (counts 0..4, twin generators, factor recovered from a probe call); "
@@ -1399,7 +1437,8 @@ def run(ctx):
         "section_sizes": per_section, "case_histogram": hist, "model_branches_hit": dict(br, **{k: v for k, v in stats.items() if isinstance(v, dict)}),
         "numeric": {k: v for k, v in stats.items() if not isinstance(v, dict)},
         "traces_validated_against_impl": len(todo),
-        "exhaustive": {"Dim": [1, 2, 3], "lti_state_shapes": "0..3 ^ 4", "lti_meas_shapes": "rows 0..3, cols {0,1,2,3,5,7}, R 0..3 ^ 2",
+        "exhaustive": False,
+        "exhaustive_subspaces": {"Dim": [1, 2, 3], "lti_state_shapes": "0..3 ^ 4", "lti_meas_shapes": "rows 0..3, cols {0,1,2,3,5,7}, R 0..3 ^ 2",
                        "linear_index_lists": "n 0..5, length 0..%d, values 0..n+1" % ctx.n(3, 5),
                        "sim_call_sequences": "alphabet {bufferData,getData,reset,other}, length 0..%d, L = 2" % ctx.n(4, 6),
                        "grid_sizes": "nx, ny in 2..6", "sample_counts": "0..4 for every Dim"},
